@@ -10,6 +10,7 @@ RULE = ("exhaustive: every sequence of up to 3 (thorough: 4 PS-tagged, 3 HP-tagg
         "unphased het, homozygous with PS/HP, missing, partially missing with PS/HP, indel het} on one chromosome; plus "
         "seeded random VCFs run through the real CLI `whatshap stats --tsv --block-list --gtf` (+ --only-snvs 30%, "
         "--chromosome 35% incl. comma lists / names absent from the file / header contigs without records, --sample, "
+        "--chr-lengths 15%, "
         "bgzip+tabix indexed input 25%): ploidy 2 (2/3 of the cases) or 1, 3, 4; 1-3 samples; 1-4 chromosomes; per "
         "chromosome PS-tagged, HP-tagged, `|` without PS key, or unphased; 0-4 phase sets per sample laid out "
         "contiguously / interleaved / nested / at random; heterozygous, homozygous (also `1|1` with PS), missing "
@@ -21,19 +22,25 @@ RULE = ("exhaustive: every sequence of up to 3 (thorough: 4 PS-tagged, 3 HP-tagg
         "distinct (abstract records, options).")
 TRUSTED = [
     "pysam/htslib parsing of the generated VCF into abstract records (position, SNV flag, #ALT, GT tuple, phased flag, "
-    "PS absent/'.'/value, block id of HP) and the text parsers of the TSV / block-list / GTF outputs",
+    "PS absent/'.'/value, block id of HP) and the text parsers of the TSV / block-list / GTF outputs; exception class of an "
+    "aborted run read off stderr (VcfNotSortedError / VcfInvalidChromosome / TypeError None-vs-int / other)",
     "modelled, not verified: VcfVariant ordering/hashing by position only (VcfReader never yields two variants at one "
     "position); PhasedBlock.chromosome kept outside the model block (get_nonoverlapping_blocks is only reached per "
     "chromosome); python sorted() as a stable insertion sort; dict insertion order; floats (medians, averages, "
     "fractions) are not compared; n50's `total >= 0.5*target` as 2*total >= target",
     "the reader's ploidy bookkeeping, MixedPhasingError, HP well-formedness asserts and the GtfWriter start<stop assert "
     "are outside the model (inputs are generated inside those preconditions)",
+    "which rule set the code implements (Stats.current_rules, or WHVERIF_C12_RULES) is established by L2 only; the positive "
+    "theorems are about repaired_rules, the refuted ones about legacy_rules",
 ]
 ASSUMPTIONS = [
     "the file is accepted by VcfReader: one consistent ploidy, positions of the biallelic records non-decreasing within a "
-    "chromosome, one kind of phase tag (HP or PS/`|`) per chromosome, every HP value lists each haplotype once with one block id",
+    "chromosome (sorted_recs), one kind of phase tag (HP or PS/`|`) per chromosome, every HP value lists each haplotype once with one block id",
     "counts are about the records VcfReader considers: exactly one ALT allele, an SNV under --only-snvs, the first such record per position",
-    "each chromosome forms one contiguous group of records; --chromosome names are distinct; --tsv, --block-list and --gtf are all given",
+    "each chromosome forms one contiguous group of records (NoDup chromosome ids); --chromosome names are distinct; with an "
+    "index the requested names are contigs of the header; --tsv, --block-list and --gtf are all given",
+    "a `|` genotype whose PS is '.' names no phase set (counted as unphased, as haplotag treats block id None); a `|` genotype "
+    "in a record without PS key belongs to phase set 0 (call.get('PS', 0))",
 ]
 
 HEADER = """From Coq Require Import ZArith List Bool Arith.
@@ -91,6 +98,12 @@ def run_case(ctx, case, wd, idx):
         args += ["--chromosome", c]
     if case.get("sample"):
         args += ["--sample", case["sample"]]
+    if case.get("chr_lengths") is not None:
+        with open(os.path.join(d, "lengths.tsv"), "w") as f:
+            for name, ln in case["chr_lengths"].items():
+                f.write(f"{name}\t{ln}\n")
+        args += ["--chr-lengths", os.path.join(d, "lengths.tsv")]
+        contigs = [(name, case["chr_lengths"].get(name)) for name, _ in contigs]     # effective lengths
     args.append(inp)
     rc, so, se = run_cli(ctx, args, cwd=d)
     given = G.unpack_chromosomes(case.get("chromosomes"))
@@ -233,7 +246,8 @@ def describe(res):
     c = res["case"]
     body = [l for l in c["vcf"].split("\n") if l and not l.startswith("##")]
     opts = " ".join((["--only-snvs"] if c.get("only_snvs") else []) + [f"--chromosome {x}" for x in c.get("chromosomes") or []]
-                    + ([f"--sample {c['sample']}"] if c.get("sample") else []) + (["(indexed)"] if c.get("indexed") else []))
+                    + ([f"--sample {c['sample']}"] if c.get("sample") else []) + (["(indexed)"] if c.get("indexed") else [])
+                    + ([f"--chr-lengths {c['chr_lengths']}"] if c.get("chr_lengths") is not None else []))
     if isinstance(res["out"], str):
         got = f"exit code {res['rc']}: {res['err']}"
     else:
@@ -358,6 +372,8 @@ def run(ctx):
             ctx.tally("opt.chromosome")
         if c.get("sample"):
             ctx.tally("opt.sample")
+        if c.get("chr_lengths") is not None:
+            ctx.tally("opt.chr_lengths")
         if t.get("unsorted"):
             ctx.tally("malformed.unsorted")
         if any(G.missing_gt(x) for x in processed_recs(r)):
